@@ -436,7 +436,9 @@ def eq_strategy(
     """
     # override strategy preceding this one and generate value of the same type
     # pylint: disable=unused-argument
-    return pandas_dtype_strategy(pandera_dtype, st.just(value))
+    if strategy is None:
+        return pandas_dtype_strategy(pandera_dtype, st.just(value))
+    return strategy.filter(partial(operator.eq, value))
 
 
 def ne_strategy(
